@@ -395,7 +395,22 @@ impl<'a> B<'a> {
                 _ => self.lit(Ty::Bool),
             },
             Ty::Null => E::Lit(TV::Null),
-            Ty::Arr => match self.c.below(5) {
+            Ty::Arr => match self.c.below(6) {
+                // `zip` keeps its arguments as constant-or-expression: a block that only returns
+                // a constant must still end the program (or closure iteration)
+                5 if !(self.p.avoid_kind_findings) => {
+                    let lit_arr = |s: &mut Self| {
+                        let n = 1 + s.c.below(2);
+                        E::Arr((0..n).map(|_| { let t = [Ty::Int, Ty::Str, Ty::Bool][s.c.below(3)]; s.lit(t) }).collect())
+                    };
+                    let first = if self.p.returns > 0 && self.pure == 0 && self.c.chance(1, 2) {
+                        E::Block(vec![E::Return(Box::new(lit_arr(self)))])
+                    } else {
+                        lit_arr(self)
+                    };
+                    let second = lit_arr(self);
+                    E::Call { f: "zip".into(), bang: false, args: vec![(None, first), (None, second)], closure: None }
+                }
                 0 => E::Call {
                     f: "push".into(),
                     bang: false,
